@@ -214,8 +214,8 @@ def run(ctx):
     ctx.extra['documented_heuristics'] = HEURISTICS
     max_rows = 300 if ctx.tier == 'quick' else 3000
     clauses = [
-        Clause('C05/score', lambda: frame_case(max_rows=max_rows), oracle, quick=2400, thorough=40000, quick_shards=8),
-        Clause('C05/alias', alias_case, oracle, quick=24, thorough=600, quick_shards=4, thorough_shards=8),
+        Clause('C05/score', lambda: frame_case(max_rows=max_rows), oracle, quick=2400, thorough=120000, quick_shards=8),
+        Clause('C05/alias', alias_case, oracle, quick=24, thorough=1800, quick_shards=4, thorough_shards=8),
     ]
     drive(ctx, clauses)
     missing = [h for h in HEURISTICS if ctx.stats.classes.get('h=' + h, 0) == 0 and not ctx.violations]
